@@ -6,6 +6,7 @@
 From Coq Require Import List Arith Bool NArith.
 From Conductor Require Import Model.Loader Model.Planner Model.Exec Model.RunCase
   Proofs.ExecInv Proofs.ExecTheorems Proofs.ExecMain Proofs.PlannerInv Proofs.PlannerExact Proofs.ComposeExec Proofs.ComposeStop Proofs.ExecStatus Proofs.ComposeStatus.
+From Conductor Require Import Proofs.WfPlanDec.
 Import ListNotations.
 
 (* the final state of every operation is determined by the dependency graph and the oracle:
@@ -146,3 +147,7 @@ Example C03_verdict_nonvacuous :
   evs_of (cond_run 50 v_tasks (v_cfg 0)) = [EStart 0 None; EFinish 0 0; EStart 1 None; EFinish 1 0; EKill []; EDone] /\
   evs_of (cond_run 50 v_cached (v_cfg 0)) = [ECached 0; EKill []; EDone].
 Proof. vm_compute. repeat split. Qed.
+
+(* the example plan meets the hypothesis of the theorems above *)
+Example C03_example_plan_is_wf : wf_plan ex_plan.
+Proof. apply wf_planb_spec. vm_compute. reflexivity. Qed.
